@@ -402,3 +402,7 @@ fn read_blob_pages(pager: &mut Pager, pages: &[u64]) -> Result<Vec<u8>> {
     }
     Ok(out)
 }
+
+#[cfg(kani)]
+#[path = "/verif/kani/storage/csr.rs"]
+mod kani_harness;
